@@ -425,9 +425,8 @@ def cases(tier):
     out.append(Case('extreme_magnitudes_ground', None, custom=_extreme_magnitudes_case))
     out.append(Case('count_scaling[Hq+Dq+Yq]', _count_scaling(('Hq', 'Dq', 'Yq')), max_paths=mp, timeout_ms=to, portfolio=th))
     out.append(Case('regroup_same_charge_ions', _regroup_ions, max_paths=mp, timeout_ms=to, portfolio=th))
-    if th:
-        out.append(Case('vector_edep[in+beyond]', _vector_edep([(1.0, 2.0), (4.0, 50.0)]), max_paths=mp * 4, timeout_ms=to, portfolio=th, validate=False,
-                        budget_s=1500, expect_incomplete=True))
+    # (a symbolic vector call on an atom with a symbolic energy table -- _vector_edep -- does not finish a single path in
+    #  25 minutes: the interp fork tree times the vector width times nonlinear claims; the ground case above stands in)
     for ks, n, kind in vec:
         out.append(Case('vector[%s|n=%d|%s]' % ('+'.join(ks), n, kind), _vector(ks, n, kind), max_paths=mp * 4,
                         timeout_ms=to, portfolio=th))
